@@ -437,7 +437,10 @@ def oracle(case, impl):
     elif op['op'] == 'bind' and 'ok' in res:
       binds.setdefault((op['scope'], op['sel']), {})[op['arg']] = op['val']
     elif op['op'] == 'call':
-      reg = regs[op['_target']]
+      reg = regs.get(op['_target'])
+      if reg is None:
+        bad = [r for o, r in zip(case['ops'], impl['out']) if o['op'] == 'register' and o.get('obj') == op['_target']]
+        return f'op {k}: the registration of the called configurable was refused: {bad}'
       if res.get('err') == 'ValueError' and 'ok' not in res:
         # invalid scope or REQUIRED in *args: nothing is recorded
         continue
